@@ -256,16 +256,25 @@ def case_random(ctx, rng, wd, l=None):
     src = Q if cg else q
     tag = "/coarse" if cg else "/local"
     s2 = (np.abs(src) ** 2).sum(axis=2)
+    twice = bool(rng.random() < 0.25)     # history: every method asked twice in a row on the object; the second answer is monitored
+    if twice:
+        ctx.count("methods_called_twice")
+
+    def rep(f):
+        def g(*a):
+            r_ = f(*a)
+            return f(*a) if twice else r_
+        return g
     ext = str(rng.choice([".npy", ".dat", ".txt"]))
     fq = os.path.join(wd, "ql" + ext) if rng.random() < 0.3 else None
-    ok, ql = ctx.call("boo_3d.ql_Ql", b.ql_Ql, cg, fq, data=info)
+    ok, ql = ctx.call("boo_3d.ql_Ql", rep(b.ql_Ql), cg, fq, data=info)
     if ok and fq:
         files_match(ctx, fq, np.asarray(ql), "boo_3d.ql_Ql/file", info)
     if ok:
         ctx.close("ql", np.asarray(ql), np.sqrt(4 * np.pi / (2 * l + 1) * s2), "boo_3d.ql_Ql" + tag, rtol=1e-10, atol=1e-12, what="q_l", data=info)
         ctx.check("ql_bounds", bool(np.all(np.asarray(ql) >= 0) and np.all(np.asarray(ql) <= 1 + 1e-10)), "boo_3d.ql_Ql/bounds", lambda: f"q_l outside [0,1]: max {np.max(ql)}", info)
     fw1, fw2 = (os.path.join(wd, "w" + ext), os.path.join(wd, "wcap" + ext)) if rng.random() < 0.3 else (None, None)
-    ok, ww = ctx.call("boo_3d.w_W_cap", b.w_W_cap, cg, fw1, fw2, data=info)
+    ok, ww = ctx.call("boo_3d.w_W_cap", rep(b.w_W_cap), cg, fw1, fw2, data=info)
     if ok and fw1:
         files_match(ctx, fw1, np.asarray(ww[0]), "boo_3d.w_W_cap/file_w", info)
         files_match(ctx, fw2, np.asarray(ww[1]), "boo_3d.w_W_cap/file_wcap", info)
@@ -276,7 +285,7 @@ def case_random(ctx, rng, wd, l=None):
         ctx.skip("wcap", int((~nd).sum()))
         ctx.close("wcap", np.asarray(ww[1])[nd], (wref / np.where(nd, s2, 1.0) ** 1.5)[nd], "boo_3d.w_W_cap/wcap" + tag, rtol=1e-9, atol=1e-10, what="w-hat_l", data=info)
     c = float(rng.uniform(0.0, 0.95))
-    ok, sres = ctx.call("boo_3d.sij_ql_Ql", b.sij_ql_Ql, cg, c, None, None, data=info)
+    ok, sres = ctx.call("boo_3d.sij_ql_Ql", rep(b.sij_ql_Ql), cg, c, None, None, data=info)
     if ok:
         good = isinstance(sres, list) and len(sres) == T
         if ctx.check("sij", good, "boo_3d.sij_ql_Ql/layout", "expected one array per frame", info):
